@@ -13,7 +13,7 @@ from sklearn.tree import DecisionTreeRegressor
 PROPERTY = "C13"
 RULE = ("function-roundtrip: EVERY name in FunctionReciprocalTransformer.available_fcts() (read at run time) x Hypothesis-drawn targets "
         "in the function's domain (ranges chosen from floating-point conditioning), 1-D and (n,1) shapes, NaN at generated positions, "
-        "arbitrary X that must come back untouched; oracle: get_fct_inv() undoes transform. permutation-roundtrip: label vectors over "
+        "arbitrary X that must come back untouched; oracle: get_fct_inv() undoes transform. function-branches: two or three transformers alive at once on one forward callable (square, cos) with the reciprocals of different branches; permutation-roundtrip: label vectors over "
         "generated label sets (ints incl. negative / non-contiguous, floats with NaN, strings in object and fixed-width arrays, 2..6 "
         "classes) x random_state; the identity permutation is counted as trivial. regressor: TransformedTargetRegressor2(regressor, "
         "name) vs f^-1(clone(regressor).fit(X, f(y)).predict(X)) with f, f^-1 taken from NumPy directly. classifier: "
@@ -93,6 +93,63 @@ def check_function(case):
     require(yn is None and np.array_equal(np.asarray(Xn), np.asarray(X0)), "transform:none", "", facts)
     return Outcome([name, "2d" if case["two_d"] else "1d", "has-nan" if (~ok).any() else "no-nan",
                     "known-name" if name in DOMAINS else "unknown-name"], True, key=dict(case, name=name))
+
+
+def _neg_sqrt(z):
+    return -np.sqrt(z)
+
+
+def _upper_arccos(z):
+    return 2 * np.pi - np.arccos(z)
+
+
+# one forward function, two reciprocals: one per branch of its domain
+BRANCHES = {"square": (np.square, [(np.sqrt, 0.0, 9.0), (_neg_sqrt, -9.0, 0.0)]),
+            "cos": (np.cos, [(np.arccos, 0.05, 3.0), (_upper_arccos, 3.3, 6.2)])}
+
+
+def check_branches(case):
+    """two transformers alive in one process, built on the SAME forward callable with different reciprocals (a non-injective function
+    used on two branches of its domain): each is undone by its own reciprocal, whatever the order in which they were built and asked"""
+    f, branches = BRANCHES[case["function"]]
+    order = case["order"]
+    ts, ys = [], []
+    for b in order:
+        g, lo, hi = branches[b]
+        u = np.array(case["units"][b], dtype=np.float64)
+        y = lo + (hi - lo) * u
+        if case["two_d"]:
+            y = y.reshape(-1, 1)
+        ts.append(_fct.FunctionReciprocalTransformer(f, g))
+        ys.append(y)
+    facts = dict(function=case["function"], order=order, ask=case["ask"])
+    X = np.zeros((len(ys[0]), 1))
+    for t, y in zip(ts, ys):
+        t.fit(X, y)
+    invs = [None] * len(ts)
+    for i in case["ask"]:
+        invs[i % len(ts)] = ts[i % len(ts)].get_fct_inv()
+    for i, (t, y) in enumerate(zip(ts, ys)):
+        inv = invs[i] if invs[i] is not None else t.get_fct_inv()
+        _, y1 = t.transform(X[:len(y)], y)
+        _, y2 = inv.transform(X[:len(y)], y1)
+        y2 = np.asarray(y2, dtype=np.float64)
+        bad = np.abs(y2 - y) > 1e-6 * (1 + np.abs(y))
+        if bad.any():
+            j = int(np.nonzero(bad.ravel())[0][0])
+            raise Violation("function:not-undone:two-instances", "%s with reciprocal #%d (instance %d of %d built on the same forward callable): %r -> %r -> %r" % (
+                case["function"], order[i], i, len(ts), float(y.ravel()[j]), float(np.asarray(y1, dtype=np.float64).ravel()[j]), float(y2.ravel()[j])), dict(facts, instance=i))
+    return Outcome([case["function"], "order=%s" % "".join(map(str, order)), "2d" if case["two_d"] else "1d"], len(set(order)) >= 2)
+
+
+@st.composite
+def _branch_cases(draw, tier="quick"):
+    n = draw(st.integers(1, 8))
+    order = draw(st.sampled_from([[0, 1], [1, 0], [0, 1, 0], [1, 1, 0], [0, 0]]))
+    unit = st.integers(1, 999).map(lambda v: v / 1000.0)
+    return dict(function=draw(st.sampled_from(["square", "cos"])), order=order, two_d=draw(st.booleans()),
+                units=[draw(st.lists(unit, min_size=n, max_size=n)), draw(st.lists(unit, min_size=n, max_size=n))],
+                ask=draw(st.lists(st.integers(0, 2), max_size=4)))
 
 
 @st.composite
@@ -358,6 +415,8 @@ def _clf_cases(draw, tier="quick"):
 CLAUSES = [
     Clause("function-roundtrip", check_function, strategy=lambda tier: _function_cases(tier), quick=2400, thorough=40000, quick_shards=8,
            doc="every predefined function name is undone by get_fct_inv(); NaN kept; X untouched"),
+    Clause("function-branches", check_branches, strategy=lambda tier: _branch_cases(tier), quick=400, thorough=6000, quick_shards=2,
+           doc="two transformers built on one forward callable with different reciprocals are each undone by their own"),
     Clause("permutation-roundtrip", check_permutation, strategy=lambda tier: _perm_cases(tier), quick=2400, thorough=40000, quick_shards=8,
            doc="fitted permutation undone by get_fct_inv() for int / float+NaN / string labels"),
     Clause("regressor", check_regressor, strategy=lambda tier: _reg_cases(tier), quick=800, thorough=12000, quick_shards=4,
